@@ -11,6 +11,9 @@ LimitOf == [frag_nested |-> 100, frag_flat |-> 100, frag_cycle |-> 100, frag_cyc
             directive_chain |-> 32, directive_cycle_enum |-> 32, directive_cycle_input |-> 32,
             input_chain |-> 32, input_cycle_nonnull |-> 32, input_cycle_nullable |-> 0,
             interface_chain |-> 0, interface_cycle |-> 0, union_members |-> 0,
+            \* lassos: a tail of two definitions leading into a cycle that does not come back to the start
+            \* (the walk meets a name that is on its path but is not its root)
+            input_lasso_nonnull |-> 0, interface_lasso |-> 0, directive_lasso_input |-> 0, frag_lasso |-> 0,
             deep_selection |-> 128, deep_list_value |-> 500, deep_object_value |-> 500, deep_type |-> 500,
             deep_variable_default |-> 500]
 Families == DOMAIN LimitOf
